@@ -16,7 +16,9 @@ FramesA == << FuA(U(5, 3, 13, 1), EvenCuts(12, 2)), FuA(U(5, 3, 13, 2), EvenCuts
               FuA(U(5, 3, 9, 8), EvenCuts(8, 2)) \o FuA(U(1, 2, 9, 9), EvenCuts(8, 2)) >>
 FramesB == << FuA(U(5, 3, 11, 21), EvenCuts(10, 2)), FuA(U(1, 1, 16, 22), EvenCuts(15, 3)), <<U(1, 2, 7, 23)>>,
               <<StapA(<<U(7, 3, 4, 24), U(8, 3, 3, 25)>>, 3)>> \o FuA(U(5, 3, 11, 26), EvenCuts(10, 2)),
-              <<U(6, 0, 3, 27)>> \o FuA(U(1, 1, 9, 28), EvenCuts(8, 4)) >>
+              <<U(6, 0, 3, 27)>> \o FuA(U(1, 1, 9, 28), EvenCuts(8, 4)),
+              FuA(U(5, 3, 9, 29), <<0, 0, 4, 8>>),            \* start fragment without payload (RFC 6184 5.8 allows it)
+              FuA(U(1, 2, 9, 30), <<0, 3, 3, 8>>) >>          \* empty middle fragment
 \* packets arriving between frame A's survivors and frame B: damaged continuations that a receiver refuses
 AfterH264 == << <<>>, <<(<<124>>)>>, <<(<<124, 5, 9, 9>>)>>, <<(<<120, 0, 9, 1>>)>> >>       \* short FU-A, middle FU-A, STAP-A with a size beyond the payload
 AfterAV1 == << <<>>, <<(<<128, 127, 1>>)>>, <<(<<128, 255>>)>>, <<(<<144, 3>>)>>, <<(<<192, 2, 7, 7>>)>> >>   \* Z=1 with a length beyond the payload, bad LEB128, Z=1 W=1, Z=1 Y=1
